@@ -334,6 +334,72 @@ Proof.
   reflexivity.
 Qed.
 
+(* ================================================================== a whole login, both loggers *)
+Lemma client_command_records_hides prefix k p1 p2 :
+  prefix <> [] -> k = Z.of_nat (length prefix) -> length p1 = length p2 ->
+  client_command_records (login_pass_command prefix p1) k
+  = client_command_records (login_pass_command prefix p2) k.
+Proof.
+  intros Hne Hk Hlen. pose proof (client_log_hides_password prefix k p1 p2 Hne Hk Hlen) as H.
+  unfold client_login_pass_log in H. unfold client_command_records, login_pass_command in *.
+  destruct prefix as [|x pr]; [congruence|]. cbn [app]. cbn [app] in H. rewrite H. reflexivity.
+Qed.
+
+Lemma client_login_loop_hides fuel prefix k p1 p2 account code replies :
+  prefix <> [] -> k = Z.of_nat (length prefix) -> length p1 = length p2 ->
+  client_login_loop fuel prefix k p1 account code replies
+  = client_login_loop fuel prefix k p2 account code replies.
+Proof.
+  intros Hne Hk Hlen. revert code replies.
+  induction fuel as [|f IH]; intros code replies; [reflexivity|].
+  cbn [client_login_loop]. destruct (matches T33x code); [|reflexivity].
+  destruct (text_eqb code T331).
+  - rewrite (client_command_records_hides prefix k p1 p2 Hne Hk Hlen).
+    destruct replies as [|r rs]; [reflexivity|].
+    destruct (any_matches [T230; T33x] (code_of_reply r)); [rewrite IH|]; reflexivity.
+  - destruct (text_eqb code T332); [|reflexivity].
+    destruct replies as [|r rs]; [reflexivity|].
+    destruct (any_matches [T230; T33x] (code_of_reply r)); [rewrite IH|]; reflexivity.
+Qed.
+
+Theorem client_login_records_hide_password prefix k user p1 p2 account replies :
+  prefix <> [] -> k = Z.of_nat (length prefix) -> length p1 = length p2 ->
+  client_login_records prefix k user p1 account replies
+  = client_login_records prefix k user p2 account replies.
+Proof.
+  intros Hne Hk Hlen. unfold client_login_records.
+  destruct replies as [|r rs]; [reflexivity|].
+  destruct (any_matches [T230; T33x] (code_of_reply r)); [|reflexivity].
+  rewrite (client_login_loop_hides _ prefix k p1 p2 account _ rs Hne Hk Hlen). reflexivity.
+Qed.
+
+(* Client.login against the modelled server: the records of BOTH loggers are the same for two
+   passwords of equal length (and equal rstripped length) that the user manager treats alike *)
+Theorem login_session_hides_password censor T users V k host port user p1 p2 account :
+  lower V = VERB_PASS -> In VERB_PASS censor ->
+  k = Z.of_nat (length (V ++ [SP])) ->
+  length p1 = length p2 -> length (rstrip p1) = length (rstrip p2) ->
+  (let st1 := fst (server_step censor T users init_state ((CMD_USER_ ++ user) ++ eol)) in
+   auth_result st1 (rstrip p1) = auth_result st1 (rstrip p2)) ->
+  login_session censor T users (V ++ [SP]) k host port user p1 account
+  = login_session censor T users (V ++ [SP]) k host port user p2 account.
+Proof.
+  intros HV Hc Hk Hlen Hrlen Hauth. cbv zeta in Hauth. unfold login_session.
+  destruct (server_step censor T users init_state ((CMD_USER_ ++ user) ++ eol)) as [st1 srv1].
+  cbn [fst] in Hauth.
+  assert (Hne : V ++ [SP] <> []) by (destruct V; discriminate).
+  assert (Hline : forall p, login_pass_command (V ++ [SP]) p ++ eol = V ++ SP :: p ++ eol).
+  { intro p. unfold login_pass_command. rewrite <- !app_assoc. reflexivity. }
+  rewrite !Hline.
+  rewrite (server_step_hides_password censor T users st1 V p1 p2 eol HV Hc allspace_eol Hrlen Hauth).
+  destruct (match reply_lines_of srv1 with r :: _ => text_eqb (code_of_reply r) T331 | [] => false end).
+  - destruct (server_step censor T users st1 (V ++ SP :: p2 ++ eol)) as [st2 s2].
+    rewrite (client_login_records_hide_password (V ++ [SP]) k user p1 p2 account _ Hne Hk Hlen).
+    reflexivity.
+  - rewrite (client_login_records_hide_password (V ++ [SP]) k user p1 p2 account _ Hne Hk Hlen).
+    reflexivity.
+Qed.
+
 (* ================================================================== stream level *)
 Lemma nospace_lf_free V : nospace V -> lf_free V.
 Proof.
